@@ -20,5 +20,7 @@ func TestC05(t *testing.T) {
 	evmx.DigestDefault = false
 	evmx.RunWorkload(m, "balanced", m.N(1500, 60000), evmx.GenOpts{}, evmx.OracleC05)
 	evmx.RunWorkload(m, "etx", m.N(2500, 100000), evmx.GenOpts{Focus: "etx"}, evmx.OracleC05)
+	// sends inside frames that fail afterwards (the block's outbound set must not keep them)
+	evmx.RunWorkload(m, "revert", m.N(2500, 100000), evmx.GenOpts{Focus: "revert"}, evmx.OracleC05)
 	m.Floor(1500, 20)
 }
